@@ -205,6 +205,9 @@ func loadWorld(repo string) (*World, error) {
 	}
 	for _, c := range w.cs.Contracts {
 		if c.Extern {
+			if prev := w.externs[c.Func]; prev != nil {
+				return w, fmt.Errorf("%s:%d: extern contract for %s is already declared at %s:%d", c.File, c.Line, c.Func, prev.File, prev.Line)
+			}
 			w.externs[c.Func] = c
 		}
 	}
